@@ -68,7 +68,7 @@ package flate
 //@   loop 3 invariant -1 <= rangeindex && rangeindex < size && 0 <= size && size <= 8 && size <= len(input) && 0 <= atentry(bitsLen) && 8*size <= 64 - int(atentry(bitsLen)) && bitsLen == atentry(bitsLen) + int32(8*(rangeindex+1))
 //@   loop 4 invariant 0 <= bitsLen && bitsLen <= 64 && sameobj(input, old(state.input)) && len(input) <= old(len(state.input)) && input != nil && old(written) <= written && written <= len(output) && 8*len(input) + int(bitsLen) <= old(remBits(state)) && err == nil && state.copyOverflowLength == 0 && (state.phase == phaseHeaderDecoded || (state.bfinal == 1 && state.phase == phaseStreamEnd) || (state.bfinal != 1 && state.phase == phaseNewBlock))
 //@   loop 4 invariant symCount <= 3 && (symCount >= 1 ==> nextLits >> (8*(symCount-1)) <= 1023) && 0 <= state.writeOverflowLen && state.writeOverflowLen <= 3 && (state.writeOverflowLen != 0 ==> written == len(output) && symCount == 1 && nextLits > 256 && uint32(state.writeOverflowLits) >> (8*uint32(state.writeOverflowLen)) == nextLits)
-//@   loop 4 invariant 0 <= bitsLenTemp && bitsLenTemp <= 64 && sameobj(inputTemp, old(state.input)) && len(inputTemp) <= old(len(state.input)) && inputTemp != nil && 8*len(inputTemp) + int(bitsLenTemp) <= old(remBits(state)) && old(written) <= writtenTemp && writtenTemp <= len(output) && (len(inputTemp) != 0 ==> bitsLenTemp >= 57) && (symCount >= 1 ==> int(bitsLen) >= int(bitsLenTemp) - 15)
+//@   loop 4 invariant 0 <= bitsLenTemp && bitsLenTemp <= 64 && sameobj(inputTemp, old(state.input)) && len(inputTemp) <= old(len(state.input)) && inputTemp != nil && 8*len(inputTemp) + int(bitsLenTemp) <= old(remBits(state)) && old(written) <= writtenTemp && writtenTemp <= len(output) && (len(inputTemp) != 0 ==> bitsLenTemp >= 57) && (symCount >= 1 ==> int(bitsLen) >= int(bitsLenTemp) - 20)
 //@   loop 5 invariant -1 <= rangeindex && rangeindex < size && 0 <= size && size <= 8 && size <= len(input) && 0 <= atentry(bitsLen) && 8*size <= 64 - int(atentry(bitsLen)) && bitsLen == atentry(bitsLen) + int32(8*(rangeindex+1))
 //@   loop 6 invariant -1 <= rangeindex && rangeindex < size && 0 <= size && size <= 8 && size <= len(input) && 0 <= atentry(bitsLen) && 8*size <= 64 - int(atentry(bitsLen)) && bitsLen == atentry(bitsLen) + int32(8*(rangeindex+1))
 
@@ -303,12 +303,13 @@ package flate
 // Well-formedness of the two-level decoding tables, as far as the decode loop's memory safety depends on it: an
 // entry of the short table that points into the long table (flag set) names a sub-table that lies inside the
 // long table, and a direct lit/len entry that consumes bits packs at least one symbol, the last of which fits in
-// ten bits (the others are literals of eight bits each); no entry consumes more than 15 bits, and an entry that
+// ten bits (the others are literals of eight bits each); no literal/length entry consumes more than 20 bits (a
+// length code of up to 15 bits with up to 5 extra bits folded in), no distance entry more than 15, and an entry that
 // consumes none (an unassigned code) holds the number of bits (at most 15) that decided it.
-//@ pure litEntOK(e uint32) bool = (e & largeFlagBit != 0 ==> 12 <= e>>26 && e>>26 <= 15 && int(e & largeShortSymMask) + (1 << (e>>26 - 12)) <= 1264) && (e & largeFlagBit == 0 && e>>28 != 0 ==> (e>>26)&3 >= 1 && (e & largeShortSymMask) >> (8*((e>>26)&3 - 1)) <= 1023)
+//@ pure litEntOK(e uint32) bool = (e & largeFlagBit != 0 ==> 12 <= e>>26 && e>>26 <= 20 && int(e & largeShortSymMask) + (1 << (e>>26 - 12)) <= 1264) && (e & largeFlagBit == 0 && e>>28 != 0 ==> (e>>26)&3 >= 1 && (e & largeShortSymMask) >> (8*((e>>26)&3 - 1)) <= 1023)
 //@ pure distEntOK(e uint16) bool = (e & smallFlagBit != 0 ==> 10 <= (e-1024)>>11 && (e-1024)>>11 <= 15 && int(e & 511) + (1 << ((e-1024)>>11 - 10)) <= 80) && (e & smallFlagBit == 0 ==> e>>11 <= 15 && (e>>11 == 0 ==> e <= 15))
 //@ pure distLongOK(e uint16) bool = e>>10 <= 15 && (e>>10 == 0 ==> e <= 15)
-//@ pure litTabOK(t *largeHuffCodeTable) bool = (forall i :: 0 <= i && i < 4096 ==> litEntOK(t.shortCodeLookup[i])) && (forall k :: 0 <= k && k < 1264 ==> t.longCodeLookup[k]>>10 <= 15)
+//@ pure litTabOK(t *largeHuffCodeTable) bool = (forall i :: 0 <= i && i < 4096 ==> litEntOK(t.shortCodeLookup[i])) && (forall k :: 0 <= k && k < 1264 ==> t.longCodeLookup[k]>>10 <= 20)
 //@ pure distTabOK(t *smallHuffCodeTable) bool = (forall j :: 0 <= j && j < 1024 ==> distEntOK(t.ShortCodeLookup[j])) && (forall k :: 0 <= k && k < 80 ==> distLongOK(t.LongCodeLookup[k]))
 //@ pure tabsOK(s *inflate) bool = litTabOK(&s.litLenTable) && distTabOK(&s.distTable)
 
